@@ -44,7 +44,7 @@ G_Thin == <<{", ".join(map(str, thin))}>>
 '''
 
 
-def cfg(panel: bool, max_ops: int, salt: int, estimation: bool = True) -> str:
+def cfg(panel: bool, max_ops: int, salt: int, estimation: bool = True, chain: bool = False) -> str:
     return f'''SPECIFICATION Spec
 CONSTANTS
  Leaves <- G_Leaves
@@ -59,6 +59,7 @@ CONSTANTS
  MaxOps = {max_ops}
  Thin <- G_Thin
  Salt = {salt}
+ Chain = {"TRUE" if chain else "FALSE"}
 INVARIANT FaultFreeValid
 INVARIANT LeafFaultAlwaysInvalid
 INVARIANT DrawNeedsMC
@@ -219,6 +220,28 @@ def run_entry_points(rec) -> dict:
 
     out = {}
     eps = (('BIOGEME', biogeme_ctor), ('BIOGEME(dict)', biogeme_dict_ctor), ('BIOGEME(dict:loglike)', biogeme_dict_ctor2)) if rec['estimation'] else (('get_value_c', value),)
+    if rec.get('light') and rec['estimation']:
+        eps = eps[:2]       # the second spelling of the key is tried on a sample only
+    # one child for all entry points as long as only the library's own refusals (Python level) occur; an error
+    # of any other kind may leave the engine in its sticky error state: then every entry point gets its own child
+    def together():
+        res = {}
+        for name, fn in eps:
+            try:
+                res[name] = ('ok', fn())
+            except BaseException as e:  # noqa
+                res[name] = ('exc', (type(e).__name__, [c.__name__ for c in type(e).__mro__], str(e)[:400]))
+                if type(e).__name__ != 'BiogemeError':
+                    return None
+        return res
+
+    if len(eps) > 1:
+        st, val = forked(together, timeout=40)
+        if st == 'ok' and isinstance(val, dict):
+            for name, _ in eps:
+                res = val[name]
+                out[name] = (classify(res), (res[1][2] if res[0] == 'exc' else '')[:200])
+            return out
     for name, fn in eps:
         res = forked(fn, timeout=20)
         out[name] = (classify(res), (res[1][2] if res[0] == 'exc' else '')[:200])
